@@ -80,7 +80,7 @@ CHECKS.update({
    technique="native-execution state-diff monitor + sanitizer build + generated-table differential"),
  "C14": dict(category="exploration",
    text="Runtime monitoring under ASan+UBSan: 2.3e5 (quick) arbitrary (id, options, extra register, operands) tuples per run through x86 Assembler/Builder/Compiler with returning, throwing and absent error handlers; for every failing call the driver records byte/label/fixup/relocation/section/node deltas, one-shot state and handler invocations; successful calls go to the C01 oracles; probe programs emitted between failures and at the end are compared with a fresh emitter; a second driver interleaves valid and invalid label/section/align/data API calls on x86 and AArch64.",
-   design_ref="DESIGN.md section 2, C14", note="Arbitrary operand kinds on x86 only (AArch64 has no operand validator; its perturbed-operand refusal is judged in C02).",
+   design_ref="DESIGN.md section 2, C14", note="Arbitrary operand kinds on x86 only (AArch64 has no operand validator); on AArch64 every database form keeps its operand kinds and all ids, lanes, shifts, extends, immediates and offsets are perturbed out of range (21k unencodable cases per quick run, LLVM as the referee for the marking) and must be refused without residue.",
    technique="sanitizer build + state-delta monitor at the API boundary + probe-program differential"),
  "C15": dict(category="fault_enumeration",
    text="Fault enumeration by runtime injection: for 20 workloads (assemble, build, compile on x86-64/x86-32/AArch64, JitRuntime::add incl. dual mapping and the shm fallback, containers, const pool, strings) every k-th arena request (hook H1), heap request (--wrap malloc/realloc/calloc) and virtual-memory request (--wrap mmap/ftruncate/shm_open/memfd) fails once, stickily, and twice at the same call site; each armed run executes in a forked worker under ASan+UBSan+LSan; the API must report an error or produce the clean output, a retry on the same objects must reproduce the clean bytes, and malloc/mmap/fd balances must return to the pre-case level.",
